@@ -7,7 +7,7 @@ parse(format v) = v on the real code) -> SQL correspondence (gverif sql: CAST(a 
 every deviation from the specification into the narrow classes of findings/C13.json."""
 import json, re, time
 from fractions import Fraction
-from . import common, gen
+from . import common, gen, tables_cast
 
 PID = "C13"
 PROPS = "props/C13.v"
@@ -16,7 +16,7 @@ INTS = {"i8": (True, 8), "i16": (True, 16), "i32": (True, 32), "i64": (True, 64)
         "u8": (False, 8), "u16": (False, 16), "u32": (False, 32), "u64": (False, 64)}
 FLOATS = {"f32": 32, "f64": 64}
 SRC_DECS = ["dec(5,2)", "dec(3,0)", "dec(18,0)", "dec(18,9)", "dec(30,5)", "dec(38,10)", "dec(38,20)"]
-TGT_DECS = SRC_DECS + ["dec(3,1)", "dec(4,1)", "dec(10,2)", "dec(18,10)", "dec(18,17)", "dec(38,0)", "dec(20,2)"]
+TGT_DECS = SRC_DECS + ["dec(3,1)", "dec(4,1)", "dec(10,2)", "dec(18,10)", "dec(18,17)", "dec(38,0)", "dec(20,2)", "dec(38,30)", "dec(38,37)"]
 SRC_TYPES = list(INTS) + list(FLOATS) + SRC_DECS + ["bool", "text", "date"]
 TGT_TYPES = list(INTS) + list(FLOATS) + TGT_DECS + ["bool", "text", "date"]
 
@@ -100,7 +100,7 @@ def model_req(S, T, cell):
             return "pi %s %s" % (mity(T), x), None
         if kt == "dec":
             p, s = dps(T)
-            return "pd 1 %s %d %d %s" % (dsto(T), p, s, x), None
+            return "pd 1 %s %d %d %s" % (dsto(T), p, s, x), "spd %d %d %s" % (p, s, x)
         if kt == "bool":
             return "pb %s" % x, None
         if kt == "date":
@@ -220,65 +220,30 @@ def py_spec(S, T, cell):
 
 # ---------------------------------------------------------------- known classes (findings/C13.json)
 def classify(S, T, cell, impl, spec):
-    """impl deviates from spec (and equals the faithful model): -> finding id or None"""
+    """impl deviates from spec (and equals the faithful model): -> id of a finding that is still open, or None.
+    The repaired defects (findings/C13.json "fixed") have no class any more: if one of them comes back the
+    implementation differs from the re-transcribed model and/or from the specification -> violation."""
     ks, kt = kind(S), kind(T)
-    if ks == "dec" and kt == "dec" and impl[0] == "ok" and spec == ("err",):
-        d = int(impl[1][1:].split("/")[0])
-        if abs(d) >= 10 ** dps(T)[0]:
-            return "rescale-no-precision-check"
+    if ks == "dec" and kt == "dec" and impl == ("err",) and spec[0] == "ok":
+        if 10 ** abs(dps(S)[1] - dps(T)[1]) >= 1 << (63 if dsto(T) == "d64" else 127):
+            return "rescale-factor-exceeds-target-primitive"
     if ks == "dec" and kt == "dec" and impl == ("err",) and spec[0] == "ok" and dsto(S) == "d128" and dsto(T) == "d64":
         if abs(int(cell[1:].split("/")[0])) >= 1 << 63:
             return "rescale-narrows-before-downscale"
-    if ks == "dec" and kt == "dec" and impl == ("panic",):
-        lim = 1 << (63 if dsto(T) == "d64" else 127)
-        if 10 ** abs(dps(S)[1] - dps(T)[1]) >= lim:
-            return "rescale-pow-overflow-panic"
-    if ks in ("int", "float") and kt == "dec" and impl == ("panic",) and dps(T)[1] >= 10:
-        return "to-decimal-i32-pow-overflow"
-    if ks == "int" and kt == "dec" and impl == ("panic",):
-        v = int(cell[1:])
-        if v == -(1 << (63 if dsto(T) == "d64" else 127)):
-            return "validate-precision-abs-min-panic"
     if ks == "float" and kt == "dec" and impl[0] == "ok" and spec[0] == "ok":
         a, b = int(impl[1][1:].split("/")[0]), int(spec[1][1:].split("/")[0])
         # the product v * 10^s is rounded to the source float format before .round(): at most one ulp of the
-        # product (and one unit from the second rounding)
-        if abs(a - b) <= max(1, 1 << max(abs(b).bit_length() - (23 if S == "f32" else 52), 0)):
+        # product (and one unit from the second rounding); 10^s itself is a rounded float for s > 22 (f64) / s > 10 (f32)
+        extra = 2 if dps(T)[1] > (10 if S == "f32" else 22) else 0
+        if abs(a - b) <= max(1, 1 << max(abs(b).bit_length() - (23 if S == "f32" else 52) + extra, 0)):
             return "float-to-decimal-product-rounded-twice"
     if ks == "float" and kt == "dec" and {impl[0], spec[0]} == {"ok", "err"}:
-        # the doubly rounded product crosses 10^p
         ok = impl if impl[0] == "ok" else spec
         b = int(ok[1][1:].split("/")[0])
-        if abs(abs(b) - 10 ** dps(T)[0]) <= max(1, 1 << max(abs(b).bit_length() - (23 if S == "f32" else 52), 0)):
+        extra = 2 if dps(T)[1] > (10 if S == "f32" else 22) else 0
+        lim = min(10 ** dps(T)[0], 1 << (63 if dsto(T) == "d64" else 127))
+        if abs(abs(b) - lim) <= max(1, 1 << max(abs(b).bit_length() - (23 if S == "f32" else 52) + extra, 0)):
             return "float-to-decimal-product-rounded-twice"
-    if ks == "float" and kt == "dec" and impl == ("panic",) and dps(T)[1] < 10:
-        q = float_exact(S, int(cell[1:], 16))
-        if q not in ("nan", "inf") and q * 10 ** dps(T)[1] == -(1 << (63 if dsto(T) == "d64" else 127)):
-            return "validate-precision-abs-min-panic"
-    if ks == "text" and kt == "dec":
-        text = cell[1:]
-        p, s = dps(T)
-        lead = re.match(r"^[+-]?([0-9]*)", text).group(1).lstrip("0")
-        if impl == ("panic",) and len(lead) >= (19 if dsto(T) == "d64" else 39):
-            return "text-decimal-unchecked-mul-panic"
-        m = DEC_RE.match(text)
-        if m:
-            ip, fp = (m.group(1) or ""), (m.group(2) or "")
-            if not (ip + fp) and impl == ("ok", "D0/%d/%d" % (p, s)):
-                return "text-decimal-accepts-no-digits"
-            if impl == ("panic",) and (len(ip.lstrip("0")) + min(len(fp), max(s, 0)) + max(s - len(fp), 0) >= (18 if dsto(T) == "d64" else 38)):
-                return "text-decimal-unchecked-mul-panic"
-            if impl[0] == "ok" and spec[0] == "ok" and len(fp) > s:
-                a, b = int(impl[1][1:].split("/")[0]), int(spec[1][1:].split("/")[0])
-                if abs(a - b) == 1:
-                    return "text-decimal-truncates"
-            if impl[0] == "ok" and spec == ("err",) and abs(int(impl[1][1:].split("/")[0])) >= 10 ** p:
-                return "text-decimal-precision-not-validated"
-            if impl[0] == "ok" and spec == ("err",) and len(fp) > s and abs(int(impl[1][1:].split("/")[0])) == 10 ** p - 1:
-                return "text-decimal-truncates"      # rounding carries to 10^p, truncation stays at 10^p - 1
-            if impl == ("err",) and spec[0] == "ok" and len(fp) > s:
-                # digits beyond the scale are dropped before the count, rounding would carry to 10^k
-                return "text-decimal-truncates"
     return None
 
 
@@ -461,8 +426,14 @@ def stage_units(ctx, rng, gcast, gmodel):
             gg = "panic" if g.startswith("panic") else g
             ww = "none" if w == "err" else w
             if gg != ww:
-                mism.append({"op": c["op"], "params": {k: v for k, v in c.items() if k in ("ty", "bits", "p", "s")},
-                             "input": descr[i] if descr else c["items"][i], "real": g, "model": w})
+                m_ = {"op": c["op"], "params": {k: v for k, v in c.items() if k in ("ty", "bits", "p", "s")},
+                      "input": descr[i] if descr else c["items"][i], "real": g, "model": w}
+                if c["op"].startswith("parse_") and c["items"][i].startswith("x"):
+                    sqlt = {"parse_dec": "decimal(%s,%s)" % (c.get("p"), c.get("s")), "parse_date": "date", "parse_bool": "boolean",
+                            "parse_iv": "interval", "parse_int": {"s8": "tinyint", "s16": "smallint", "s32": "int", "s64": "bigint",
+                                                                  "u8": "utinyint", "u16": "usmallint", "u32": "uint", "u64": "ubigint"}.get(c.get("ty"), "?")}[c["op"]]
+                    m_["sql"] = ["select cast('%s' as %s)" % (unhex(c["items"][i]), sqlt)]
+                mism.append(m_)
         fmt_results[c["id"]] = (c, got, descr)
     # property level on the real code: parse(format v) = v, and the spec of text -> decimal / integer
     rt_cases, rt_meta = [], []
@@ -503,7 +474,8 @@ def stage_units(ctx, rng, gcast, gmodel):
                 impl = ("panic",) if g.startswith("panic") else ("err",) if g == "none" else ("ok", "D%s/%d/%d" % (g[3:], c["p"], c["s"]))
                 if c["s"] < 0:
                     if impl == ("panic",):
-                        known.setdefault("text-decimal-negative-scale-panic", []).append({"text": text, "type": T})
+                        viol.append({"kind": "text->decimal with a negative scale panics", "text": text, "type": T,
+                                     "sql": ["select cast('%s' as decimal(%d,%d))" % (text, c["p"], c["s"])]})
                     continue
                 spec = spec_text_decimal(text, c["p"], c["s"])
                 if impl != spec:
@@ -512,7 +484,8 @@ def stage_units(ctx, rng, gcast, gmodel):
                         known.setdefault(k, []).append({"text": text, "type": T, "impl": impl, "spec": spec})
                     else:
                         viol.append({"kind": "text->decimal deviates from the specification outside the known classes",
-                                     "text": text, "type": T, "impl": impl, "spec": spec})
+                                     "text": text, "type": T, "impl": impl, "spec": spec,
+                                     "sql": ["select cast('%s' as decimal(%d,%d))" % (text, c["p"], c["s"])]})
         if c["op"] == "parse_int" and c["ty"] in ("s8", "s16", "s32", "s64", "u8", "u16", "u32", "u64"):
             T = {"s": "i", "u": "u"}[c["ty"][0]] + c["ty"][1:]
             for i, g in enumerate(got):
@@ -616,8 +589,8 @@ def stage_sql(ctx, rng, gverif, gmodel):
             if x.get("ok"):
                 if T != S:
                     targets.append(T)
-            elif "panic" in x and T != S:
-                bind_panics.append(T)      # the cast function's bind panics: every value of the pair panics
+            elif ("panic" in x or "Cannot rescale decimal" in x.get("err", "")) and T != S:
+                bind_panics.append(T)      # the cast function's bind panics / fails: every value of the pair does
             elif "cannot handle source type" in x.get("err", "") or "Unable to find cast" in x.get("err", ""):
                 nocast.append("%s->%s" % (S, T))
             elif T != S:
@@ -853,7 +826,7 @@ def stage_roundtrip_sql(ctx, rng, gverif):
             n += 1
             last = res[-1] if res else {}
             if last.get("ok"):
-                known.setdefault("cast-flatten-drops-failing-inner-cast", []).append({"sql": x, "result": last["rows"]})
+                viol.append({"kind": "nested cast: the failing inner cast was dropped (CAST flattening)", "sql": [x], "result": last["rows"]})
             elif "err" not in last:
                 viol.append({"kind": "nested cast neither fails nor succeeds cleanly", "sql": x, "result": str(last)[:300]})
     # interval text round trip (property level)
@@ -889,6 +862,7 @@ def run(ctx):
     t0 = time.time()
     rng = common.Rng(ctx["seed"])
     out = {"violations": [], "known": [], "assumptions": []}
+    tb = tables_cast.regenerate()
     gverif, _ = common.build_harness()
     gcast, _ = common.build_harness(bin="gv_cast")
     pr = common.coq_props(PROPS)
@@ -933,7 +907,9 @@ def run(ctx):
                          "harness/src/bin/gv_cast.rs and gverif sql",
                          "python-side specification of text->decimal, text->integer, float->decimal (exact rationals) in vlib/c13.py",
                          "Rust std float parsing/printing (not modelled; only the engine-level round trip is checked)",
-                         "chrono 0.4.41 is modelled (NaiveDate::from_str, %Y-%m-%d, day numbering), tied by correspondence only"],
+                         "chrono 0.4.41 is modelled (NaiveDate::from_str, %Y-%m-%d, day numbering), tied by correspondence only",
+                         "num_traits::checked_pow is modelled by its specification (Some(b^n) iff it fits); 10f64.powi(n) by compiler-rt's __powidf2 loop; both tied by correspondence (scales 0..37)",
+                         "vlib/tables_cast.py scanner: CastFlatten::Safe integer casts and the flattening condition in expr/cast_expr.rs"],
         "theorems": obligations,
         "evaluations": u["evaluations"] + s["values"] + r["values"],
         "distinct_nontrivial": s["distinct"] + u["cases"],
@@ -945,7 +921,7 @@ def run(ctx):
         "unit_items": u["evaluations"], "unit_roundtrips": u["roundtrips"], "days_formatted": u["days_formatted"],
         "sql_values": s["values"], "sql_pairs_with_cast": len(s["pairs"]), "sql_pairs": s["pairs"], "pairs_without_cast": s["nocast"],
         "sql_roundtrip_values": r["values"], "exhaustive": False,
-        "stage_seconds": {"build+proofs": round(t1 - t0, 1), "units": round(t2 - t1, 1), "sql": round(t3 - t2, 1), "roundtrip": round(t4 - t3, 1)},
+        "source_constants": tb, "stage_seconds": {"build+proofs": round(t1 - t0, 1), "units": round(t2 - t1, 1), "sql": round(t3 - t2, 1), "roundtrip": round(t4 - t3, 1)},
     }
     out["assumptions"] = ["float <-> text is Rust std (not modelled); float values reach tables through text parsing and are read back before use",
                           "try_cast has no SQL syntax in this tree (PlannedCastFunction::call_try_cast is never called); only CAST (error) is exercised",
